@@ -1,29 +1,41 @@
 (* C13: the statements of Props/C13.v assembled from the lemma files, a toy decoder for
-   the witnesses, and the refutation witnesses. *)
+   the witnesses, and the witnesses. *)
 From Mxj Require Import Spec.StreamSpec Proofs.C13P Proofs.JsonP Proofs.C13Json Proofs.C13H.
 Import ListNotations.
 Local Arguments marshal : simpl never.
 
-
 (* ------------------------------------------------------------------ totality of the drivers *)
 
-Lemma drive_br_total : forall {R} (M : machine R) fuel st b, length (br_r b) < fuel ->
-  drive M br_read_byte fuel st b <> None.
+Lemma br_loop_len : forall i sc, length (snd (br_loop i sc)) <= length sc /\
+  (sc <> [] -> 0 < i -> length (snd (br_loop i sc)) < length sc).
 Proof.
-  intros R M. induction fuel as [|f IH]; intros st b H; [lia|].
-  destruct b as [buf sc]. cbn in H. destruct sc as [|e sc]; cbn; [discriminate|].
-  destruct e; cbn; try discriminate.
-  - destruct (m_step M st b); [apply IH; cbn in *; lia|discriminate].
-  - destruct (m_step M st buf); [apply IH; cbn in *; lia|discriminate].
+  induction i as [|i IH]; intro sc; [cbn; split; [lia|intros; lia]|].
+  destruct sc as [|e sc]; [cbn; split; [lia|congruence]|]. destruct e; cbn; try (split; [lia|intros; lia]).
+  destruct (IH sc) as [H1 _]. split; [lia|intros; lia].
 Qed.
-Lemma drive_tr_total : forall {R} (M : machine R) fuel st t, length (tr_r t) < fuel ->
-  drive M tr_read_byte fuel st t <> None.
+Lemma tr_loop_len : forall i t, length (tr_r (snd (tr_loop i t))) <= length (tr_r t) /\
+  (tr_r t <> [] -> 0 < i -> length (tr_r (snd (tr_loop i t))) < length (tr_r t)).
 Proof.
-  intros R M. induction fuel as [|f IH]; intros st t H; [lia|].
-  destruct t as [buf w sc]. cbn in H. destruct sc as [|e sc]; cbn; [discriminate|].
-  destruct e; cbn; try discriminate.
-  - destruct (m_step M st b); [apply IH; cbn in *; lia|discriminate].
-  - destruct (m_step M st buf); [apply IH; cbn in *; lia|discriminate].
+  intros i [w sc]. rewrite tr_loop_br. cbn [snd tr_r]. apply br_loop_len.
+Qed.
+Lemma jr_len : forall sc, length (snd (jr_read_byte sc)) <= length sc /\
+  (sc <> [] -> length (snd (jr_read_byte sc)) < length sc).
+Proof.
+  induction sc as [|e sc IH]; [cbn; split; [lia|congruence]|]. destruct e; cbn; split; try lia; intros; lia.
+Qed.
+
+(* a driver whose ReadByte consumes at least one event of a non-empty schedule, and answers an error on the empty one *)
+Lemma drive_total : forall {R A} (M : machine R) (rb : A -> rbres * A) (src : A -> list rev),
+  (forall a, length (src (snd (rb a))) <= length (src a) /\ (src a <> [] -> length (src (snd (rb a))) < length (src a))) ->
+  (forall a, src a = [] -> exists e, fst (rb a) = RBErr e) ->
+  forall fuel st a, length (src a) < fuel -> drive M rb fuel st a <> None.
+Proof.
+  intros R A M rb src Hlen Hnil. induction fuel as [|f IH]; intros st a H; [lia|].
+  cbn [drive]. destruct (rb a) as [r a'] eqn:E. destruct r as [b|[|]]; try discriminate.
+  destruct (m_step M st b); [|discriminate]. apply IH.
+  destruct (Hlen a) as [H1 H2]. rewrite E in H1, H2. cbn [snd] in *.
+  destruct (src a) eqn:Es; [destruct (Hnil a Es) as [e He]; rewrite E in He; discriminate|].
+  specialize (H2 ltac:(discriminate)). cbn in *. lia.
 Qed.
 
 Lemma readers_total : forall (M : xmachine) nmj sc,
@@ -32,188 +44,214 @@ Lemma readers_total : forall (M : xmachine) nmj sc,
 Proof.
   intros M nmj sc.
   assert (H1 : new_map_xml_reader M sc <> None).
-  { unfold new_map_xml_reader. pose proof (drive_br_total M (S (length sc)) (m_init M) (my_byte_reader sc)) as H.
-    destruct (drive _ _ _ _ _) as [[r b]|]; [discriminate|]. exfalso. apply H; cbn; [lia|reflexivity]. }
+  { unfold new_map_xml_reader. apply (drive_total M br_read_byte (fun a => a)); [| |lia].
+    - intro a. destruct (br_loop_len 100 a) as [Ha Hb]. split; [exact Ha|intro Hn; apply Hb; [exact Hn|lia]].
+    - intros a ->. eexists. reflexivity. }
   assert (H2 : new_map_xml_reader_raw M sc <> None).
-  { unfold new_map_xml_reader_raw. pose proof (drive_tr_total M (S (length sc)) (m_init M) (my_tee_reader sc)) as H.
-    destruct (drive _ _ _ _ _) as [[r b]|]; [discriminate|]. exfalso. apply H; cbn; [lia|reflexivity]. }
+  { unfold new_map_xml_reader_raw.
+    pose proof (drive_total M tr_read_byte tr_r) as Ht.
+    destruct (drive M tr_read_byte (S (length sc)) (m_init M) (my_tee_reader sc)) as [[r t]|] eqn:E; [discriminate|].
+    exfalso. revert E. apply Ht; [| |cbn; lia].
+    - intro a. destruct (tr_loop_len 100 a) as [Ha Hb]. split; [exact Ha|intro Hn; apply Hb; [exact Hn|lia]].
+    - intros [w a] Ha. cbn in Ha. subst a. eexists. reflexivity. }
   assert (H3 : get_json sc <> None).
-  { unfold get_json. pose proof (drive_br_total jmachine (S (length sc)) jinit (my_byte_reader sc)) as H.
-    destruct (drive _ _ _ _ _) as [[r b]|]; [discriminate|]. exfalso. apply H; cbn; [lia|reflexivity]. }
+  { unfold get_json. apply (drive_total jmachine jr_read_byte (fun a => a)); [| |lia].
+    - intro a. apply jr_len.
+    - intros a ->. eexists. reflexivity. }
   repeat split; try assumption.
-  - unfold new_map_json_reader. destruct (get_json sc) as [[[b|b e|] sc']|]; try discriminate. congruence.
-  - unfold new_map_json_reader_raw. destruct (get_json sc) as [[[b|b e|] sc']|]; try discriminate. congruence.
+  - unfold new_map_json_reader. destruct (get_json sc) as [[[b|b e] sc']|]; try discriminate. congruence.
+  - unfold new_map_json_reader_raw. destruct (get_json sc) as [[[b|b e] sc']|]; try discriminate. congruence.
 Qed.
 
-(* NewMapJsonReader never panics when NewMapJson does not *)
+(* NewMapJsonReader / NewMapJsonReaderRaw never panic when NewMapJson does not, whatever the stream and the schedule *)
 Lemma json_reader_no_panic : forall nmj sc r sc', (forall b, nmj b <> Panic) ->
   new_map_json_reader nmj sc = Some (r, sc') -> r <> Panic.
 Proof.
   intros nmj sc r sc' Hn H. unfold new_map_json_reader in H.
-  destruct (get_json sc) as [[[b|b e|] s1]|]; try discriminate; injection H as <- _; try discriminate.
+  destruct (get_json sc) as [[[b|b e] s1]|]; try discriminate; injection H as <- _; try discriminate.
+  destruct b; [discriminate|apply Hn].
+Qed.
+Lemma json_reader_raw_no_panic : forall nmj sc r raw sc', (forall b, nmj b <> Panic) ->
+  new_map_json_reader_raw nmj sc = Some (r, raw, sc') -> r <> Panic.
+Proof.
+  intros nmj sc r raw sc' Hn H. unfold new_map_json_reader_raw in H.
+  destruct (get_json sc) as [[[b|b e] s1]|]; try discriminate; injection H as <- _ _; try discriminate.
   destruct b; [discriminate|apply Hn].
 Qed.
 
-(* ------------------------------------------------------------------ json_scan_split *)
+(* ------------------------------------------------------------------ single calls *)
 
-Lemma clean_for_legal' : forall X sc, clean_for X sc -> legal X sc /\ clean sc = true.
-Proof. intros X sc [k ->]. apply clean_for_legal. Qed.
-
-
-Lemma reader_is_direct : forall (M : xmachine) X sc, legal X sc -> clean sc = true ->
+Lemma reader_is_direct : forall (M : xmachine) X sc, legal X sc -> zero_bounded sc = true ->
   exists sc', new_map_xml_reader M sc = Some (fst (direct M (m_init M) X), sc') /\
-              legal (skipn (snd (direct M (m_init M) X)) X) sc' /\ clean sc' = true.
+              legal (skipn (snd (direct M (m_init M) X)) X) sc' /\ zero_bounded sc' = true.
 Proof.
-  intros M X sc Hl Hc. destruct (new_map_xml_reader_clean M X sc (clean_shape _ _ Hl Hc)) as (sc' & E & Hc').
-  exists sc'. split; [exact E|]. now apply clean_for_legal'.
+  intros M X sc Hl Hc. destruct (new_map_xml_reader_ok M X sc (legal_okfor _ _ Hl Hc)) as (sc' & E & Hc').
+  exists sc'. split; [exact E|]. now apply okfor_legal.
 Qed.
 
-Lemma raw_is_consumed : forall (M : xmachine) X sc, legal X sc -> clean sc = true ->
+Lemma raw_is_consumed : forall (M : xmachine) X sc, legal X sc -> zero_bounded sc = true ->
   exists sc', new_map_xml_reader_raw M sc =
                 Some (fst (direct M (m_init M) X), firstn (snd (direct M (m_init M) X)) X, sc') /\
-              legal (skipn (snd (direct M (m_init M) X)) X) sc' /\ clean sc' = true.
+              legal (skipn (snd (direct M (m_init M) X)) X) sc' /\ zero_bounded sc' = true.
 Proof.
-  intros M X sc Hl Hc. destruct (new_map_xml_reader_raw_clean M X sc (clean_shape _ _ Hl Hc)) as (sc' & E & Hc').
-  exists sc'. split; [exact E|]. now apply clean_for_legal'.
+  intros M X sc Hl Hc. destruct (new_map_xml_reader_raw_ok M X sc (legal_okfor _ _ Hl Hc)) as (sc' & E & Hc').
+  exists sc'. split; [exact E|]. now apply okfor_legal.
 Qed.
 
-Lemma json_scan_split : forall m w rest sc,
+Lemma json_scan_split : forall eh m w rest sc,
   scan_safe (VMap m) = true -> blank w = true ->
-  legal (w ++ marshal (VMap m) ++ rest) sc -> clean sc = true ->
-  exists sc', get_json sc = Some (JOk (marshal (VMap m)), sc') /\ legal rest sc' /\ clean sc' = true.
+  legal (w ++ marshal eh (VMap m) ++ rest) sc ->
+  exists sc', get_json sc = Some (JOk (marshal eh (VMap m)), sc') /\ legal rest sc'.
 Proof.
-  intros m w rest sc Hs Hw Hl Hc.
-  destruct (get_json_doc w m rest sc Hw Hs (clean_shape _ _ Hl Hc)) as (sc' & E & Hc').
-  exists sc'. split; [exact E|]. now apply clean_for_legal'.
+  intros eh m w rest sc Hs Hw Hl.
+  destruct (get_json_doc eh w m rest sc Hw Hs (legal_okfor_any _ _ Hl)) as (sc' & E & Hc').
+  exists sc'. split; [exact E|]. now apply (okfor_legal anysc).
 Qed.
 
-Lemma jstream_length : forall ds tail, length ds <= length (jstream ds tail).
+Lemma jstream_length : forall eh ds tail, length ds <= length (jstream eh ds tail).
 Proof.
-  induction ds as [|[w m] ds IH]; intro tail; cbn [jstream length]; [lia|]. destruct (marshal_vmap_cons m) as [t ->].
+  intro eh. induction ds as [|[w m] ds IH]; intro tail; cbn [jstream length]; [lia|]. destruct (marshal_vmap_cons eh m) as [t ->].
   rewrite app_length. cbn [app length]. rewrite app_length. specialize (IH tail). lia.
 Qed.
 
-Lemma json_read_docs_raw : forall nmj ds tail sc, jdocs_ok nmj ds -> blank tail = true ->
-  legal (jstream ds tail) sc -> clean sc = true ->
+Lemma json_read_docs_raw : forall eh nmj ds tail sc, jdocs_ok eh nmj ds -> blank tail = true ->
+  legal (jstream eh ds tail) sc ->
   read_docs (new_map_json_reader_raw nmj) (S (length sc)) sc =
-  map (fun wm => (Ok (jdoc_val nmj (snd wm)), marshal (VMap (snd wm)))) ds ++ [(Err EEOF, [])].
+  map (fun wm => (Ok (jdoc_val eh nmj (snd wm)), marshal eh (VMap (snd wm)))) ds ++ [(Err EEOF, [])].
 Proof.
-  intros nmj ds tail sc Hd Ht Hl Hc. pose proof (clean_shape _ _ Hl Hc) as Hs.
-  rewrite (read_docs_stream_of _ _ _ _ (json_raw_stream_of nmj ds tail Hd Ht) _ sc Hs).
+  intros eh nmj ds tail sc Hd Ht Hl. pose proof (legal_okfor_any _ _ Hl) as Hs.
+  rewrite (read_docs_stream_of _ _ _ _ _ (json_raw_stream_of eh nmj ds tail Hd Ht) _ sc Hs).
   - now rewrite map_map.
-  - rewrite map_length. pose proof (clean_for_length _ _ Hs). pose proof (jstream_length ds tail). lia.
+  - rewrite map_length. pose proof (okfor_length _ _ _ Hs). pose proof (jstream_length eh ds tail). lia.
 Qed.
 
-Lemma json_read_docs : forall nmj ds tail sc, jdocs_ok nmj ds -> blank tail = true ->
-  legal (jstream ds tail) sc -> clean sc = true ->
+Lemma json_read_docs : forall eh nmj ds tail sc, jdocs_ok eh nmj ds -> blank tail = true ->
+  legal (jstream eh ds tail) sc ->
   read_docs (with_unit_raw (new_map_json_reader nmj)) (S (length sc)) sc =
-  map (fun wm => (Ok (jdoc_val nmj (snd wm)), [])) ds ++ [(Err EEOF, [])].
+  map (fun wm => (Ok (jdoc_val eh nmj (snd wm)), [])) ds ++ [(Err EEOF, [])].
 Proof.
-  intros nmj ds tail sc Hd Ht Hl Hc. pose proof (clean_shape _ _ Hl Hc) as Hs.
-  rewrite (read_docs_stream_of _ _ _ _ (json_stream_of nmj ds tail Hd Ht) _ sc Hs).
+  intros eh nmj ds tail sc Hd Ht Hl. pose proof (legal_okfor_any _ _ Hl) as Hs.
+  rewrite (read_docs_stream_of _ _ _ _ _ (json_stream_of eh nmj ds tail Hd Ht) _ sc Hs).
   - now rewrite map_map.
-  - rewrite map_length. pose proof (clean_for_length _ _ Hs). pose proof (jstream_length ds tail). lia.
+  - rewrite map_length. pose proof (okfor_length _ _ _ Hs). pose proof (jstream_length eh ds tail). lia.
 Qed.
 
 (* raw values of a stream without blanks between the documents: their concatenation is the stream up to the trailing blanks *)
-Lemma json_raw_concat_tight : forall ds tail, Forall (fun wm => fst wm = []) ds ->
-  concat (map (fun wm : str * entries => marshal (VMap (snd wm))) ds) ++ tail = jstream ds tail.
+Lemma json_raw_concat_tight : forall eh ds tail, Forall (fun wm => fst wm = []) ds ->
+  concat (map (fun wm : str * entries => marshal eh (VMap (snd wm))) ds) ++ tail = jstream eh ds tail.
 Proof.
-  induction ds as [|[w m] ds IH]; intros tail H; [reflexivity|]. inversion H as [|? ? Hw H']; subst. cbn in Hw. subst w.
+  intro eh. induction ds as [|[w m] ds IH]; intros tail H; [reflexivity|]. inversion H as [|? ? Hw H']; subst. cbn in Hw. subst w.
   cbn. rewrite <- app_assoc. f_equal. now apply IH.
 Qed.
 
 (* ------------------------------------------------------------------ handlers and file readers *)
 
-Definition all_nonempty (vs : list (value * str)) : Prop := Forall (fun p => nonempty_map (fst p) = true) vs.
-
-Lemma handle_generic : forall next X vs t mh eh sc, stream_of next X vs (Err EEOF, t) -> all_nonempty vs ->
-  clean_for X sc -> length vs <= length X ->
-  exists rest, handle_reader next mh eh sc =
-    Some {| h_calls := handler_calls mh 0 vs; h_errs := 0; h_ret := Ok tt; h_rest := rest |}.
-Proof.
-  intros next X vs t mh eh sc Hs Hne Hc Hlen. unfold handle_reader.
-  pose proof (clean_for_length _ _ Hc).
-  destruct (handle_loop_stream next X vs t Hs Hne mh eh (2 + length sc) [] sc Hc) as (rest & E); [lia|].
-  exists rest. exact E.
-Qed.
-
-Lemma xml_vals_nonempty_len : forall (M : xmachine) ds tail, docs_ok M ds -> eof_on_blanks M ->
-  length ds <= length (stream ds tail).
-Proof. intros. now apply (stream_length_ok M). Qed.
-
 Definition xml_docs (M : xmachine) (ds : list (str * str)) : list (value * str) :=
   map (fun wd => (doc_val M (snd wd), fst wd ++ snd wd)) ds.
 Definition xml_docs_noraw (M : xmachine) (ds : list (str * str)) : list (value * str) :=
   map (fun wd => (doc_val M (snd wd), [])) ds.
-Definition json_docs nmj (ds : list (str * entries)) : list (value * str) :=
-  map (fun wm => (jdoc_val nmj (snd wm), marshal (VMap (snd wm)))) ds.
-Definition json_docs_noraw nmj (ds : list (str * entries)) : list (value * str) :=
-  map (fun wm => (jdoc_val nmj (snd wm), [])) ds.
+Definition json_docs eh nmj (ds : list (str * entries)) : list (value * str) :=
+  map (fun wm => (jdoc_val eh nmj (snd wm), marshal eh (VMap (snd wm)))) ds.
+Definition json_docs_noraw eh nmj (ds : list (str * entries)) : list (value * str) :=
+  map (fun wm => (jdoc_val eh nmj (snd wm), [])) ds.
+
+Lemma xml_docs_non_nil : forall (M : xmachine) ds (f : str * str -> str), docs_ok M ds ->
+  Forall (fun p : value * str => non_nil (fst p) = true) (map (fun wd => (doc_val M (snd wd), f wd)) ds).
+Proof.
+  intros M ds f H. rewrite Forall_map. eapply Forall_impl; [|exact H]. intros [w d] (_ & _ & Hok). cbn in *.
+  unfold doc_val. destruct (okmap_ok _ Hok) as [m ->]. reflexivity.
+Qed.
+Lemma json_docs_non_nil : forall eh nmj ds (f : str * entries -> str), jdocs_ok eh nmj ds ->
+  Forall (fun p : value * str => non_nil (fst p) = true) (map (fun wm => (jdoc_val eh nmj (snd wm), f wm)) ds).
+Proof.
+  intros eh nmj ds f H. rewrite Forall_map. eapply Forall_impl; [|exact H]. intros [w m] (_ & _ & Hok). cbn in *.
+  unfold jdoc_val. destruct (okmap_ok _ Hok) as [mm ->]. reflexivity.
+Qed.
+
+Lemma handle_generic : forall next P X vs t mh eh sc, stream_of next P X vs (Err EEOF, t) ->
+  Forall (fun p : value * str => non_nil (fst p) = true) vs ->
+  okfor P X sc -> length vs <= length X ->
+  exists rest, handle_reader next mh eh sc =
+    Some {| h_calls := handler_calls mh 0 vs; h_errs := 0; h_ret := Ok tt; h_rest := rest |}.
+Proof.
+  intros next P X vs t mh eh sc Hs Hne Hc Hlen. unfold handle_reader.
+  pose proof (okfor_length _ _ _ Hc).
+  destruct (handle_loop_stream next P X vs t Hs Hne mh eh (2 + length sc) [] sc Hc) as (rest & E); [lia|].
+  exists rest. exact E.
+Qed.
 
 Lemma handle_xml_raw_stream : forall (M : xmachine) ds tail mh eh sc,
-  docs_ok M ds -> eof_on_blanks M -> blank tail = true -> all_nonempty (xml_docs M ds) ->
-  legal (stream ds tail) sc -> clean sc = true ->
+  docs_ok M ds -> eof_on_blanks M -> blank tail = true ->
+  legal (stream ds tail) sc -> zero_bounded sc = true ->
   exists rest, handle_xml_reader_raw M mh eh sc =
     Some {| h_calls := handler_calls mh 0 (xml_docs M ds); h_errs := 0; h_ret := Ok tt; h_rest := rest |}.
 Proof.
-  intros M ds tail mh eh sc Hd He Ht Hne Hl Hc. unfold handle_xml_reader_raw.
-  eapply handle_generic; [apply xml_raw_stream_of; eassumption|exact Hne|now apply clean_shape|].
+  intros M ds tail mh eh sc Hd He Ht Hl Hc. unfold handle_xml_reader_raw.
+  eapply handle_generic; [apply xml_raw_stream_of; eassumption|now apply xml_docs_non_nil|now apply legal_okfor|].
   unfold xml_docs. rewrite map_length. now apply (stream_length_ok M).
 Qed.
 
 Lemma handle_xml_stream : forall (M : xmachine) ds tail mh eh sc,
-  docs_ok M ds -> eof_on_blanks M -> blank tail = true -> all_nonempty (xml_docs_noraw M ds) ->
-  legal (stream ds tail) sc -> clean sc = true ->
+  docs_ok M ds -> eof_on_blanks M -> blank tail = true ->
+  legal (stream ds tail) sc -> zero_bounded sc = true ->
   exists rest, handle_xml_reader M mh eh sc =
     Some {| h_calls := handler_calls mh 0 (xml_docs_noraw M ds); h_errs := 0; h_ret := Ok tt; h_rest := rest |}.
 Proof.
-  intros M ds tail mh eh sc Hd He Ht Hne Hl Hc. unfold handle_xml_reader.
-  eapply handle_generic; [apply xml_stream_of; eassumption|exact Hne|now apply clean_shape|].
+  intros M ds tail mh eh sc Hd He Ht Hl Hc. unfold handle_xml_reader.
+  eapply handle_generic; [apply xml_stream_of; eassumption|now apply xml_docs_non_nil|now apply legal_okfor|].
   unfold xml_docs_noraw. rewrite map_length. now apply (stream_length_ok M).
 Qed.
 
-Lemma handle_json_raw_stream : forall nmj ds tail mh eh sc,
-  jdocs_ok nmj ds -> blank tail = true -> all_nonempty (json_docs nmj ds) ->
-  legal (jstream ds tail) sc -> clean sc = true ->
+Lemma handle_json_raw_stream : forall e nmj ds tail mh eh sc,
+  jdocs_ok e nmj ds -> blank tail = true -> legal (jstream e ds tail) sc ->
   exists rest, handle_json_reader_raw nmj mh eh sc =
-    Some {| h_calls := handler_calls mh 0 (json_docs nmj ds); h_errs := 0; h_ret := Ok tt; h_rest := rest |}.
+    Some {| h_calls := handler_calls mh 0 (json_docs e nmj ds); h_errs := 0; h_ret := Ok tt; h_rest := rest |}.
 Proof.
-  intros nmj ds tail mh eh sc Hd Ht Hne Hl Hc. unfold handle_json_reader_raw.
-  eapply handle_generic; [apply json_raw_stream_of; eassumption|exact Hne|now apply clean_shape|].
+  intros e nmj ds tail mh eh sc Hd Ht Hl. unfold handle_json_reader_raw.
+  eapply handle_generic; [apply json_raw_stream_of; eassumption|now apply json_docs_non_nil|now apply legal_okfor_any|].
   unfold json_docs. rewrite map_length. apply jstream_length.
 Qed.
 
-Lemma handle_json_stream : forall nmj ds tail mh eh sc,
-  jdocs_ok nmj ds -> blank tail = true -> all_nonempty (json_docs_noraw nmj ds) ->
-  legal (jstream ds tail) sc -> clean sc = true ->
+Lemma handle_json_stream : forall e nmj ds tail mh eh sc,
+  jdocs_ok e nmj ds -> blank tail = true -> legal (jstream e ds tail) sc ->
   exists rest, handle_json_reader nmj mh eh sc =
-    Some {| h_calls := handler_calls mh 0 (json_docs_noraw nmj ds); h_errs := 0; h_ret := Ok tt; h_rest := rest |}.
+    Some {| h_calls := handler_calls mh 0 (json_docs_noraw e nmj ds); h_errs := 0; h_ret := Ok tt; h_rest := rest |}.
 Proof.
-  intros nmj ds tail mh eh sc Hd Ht Hne Hl Hc. unfold handle_json_reader.
-  eapply handle_generic; [apply json_stream_of; eassumption|exact Hne|now apply clean_shape|].
+  intros e nmj ds tail mh eh sc Hd Ht Hl. unfold handle_json_reader.
+  eapply handle_generic; [apply json_stream_of; eassumption|now apply json_docs_non_nil|now apply legal_okfor_any|].
   unfold json_docs_noraw. rewrite map_length. apply jstream_length.
 Qed.
 
-Lemma file_schedule_clean : forall X, clean_for X (file_schedule X).
-Proof. intro X. exists 0. unfold file_schedule. now rewrite app_nil_r. Qed.
-
-Lemma maps_from_xml_file_raw_stream : forall (M : xmachine) ds tail,
-  docs_ok M ds -> eof_on_blanks M -> blank tail = true -> all_nonempty (xml_docs M ds) ->
-  new_maps_from_xml_file_raw M (stream ds tail) = Some (xml_docs M ds, Ok tt).
+Lemma zb_data : forall X cur, zb_aux 100 cur (map Data X) = true.
+Proof. induction X as [|x X IH]; intro cur; [reflexivity|]. cbn. apply IH. Qed.
+Lemma legal_tail_data : forall X, legal_tail (map Data X) = true.
+Proof. induction X; cbn; auto. Qed.
+Lemma delivered_data : forall X, delivered (map Data X) = X.
+Proof. induction X as [|x X IH]; cbn; [reflexivity|now rewrite IH]. Qed.
+Lemma file_schedule_ok : forall P X, (P = zero_bounded \/ P = anysc) -> okfor P X (file_schedule X).
 Proof.
-  intros M ds tail Hd He Ht Hne. unfold new_maps_from_xml_file_raw, maps_from_file.
-  rewrite (maps_loop_stream _ _ _ _ (xml_raw_stream_of M ds tail Hd He Ht) Hne _ [] _ (file_schedule_clean _)); [reflexivity|].
-  unfold xml_docs in *. rewrite map_length. pose proof (stream_length_ok M ds tail Hd He). unfold str in *. lia.
+  intros P X HP. unfold file_schedule. split; [apply delivered_data|]. split; [apply legal_tail_data|].
+  destruct HP as [-> | ->]; [apply zb_data|reflexivity].
 Qed.
 
-Lemma maps_from_json_file_raw_stream : forall nmj ds tail,
-  jdocs_ok nmj ds -> blank tail = true -> all_nonempty (json_docs nmj ds) ->
-  new_maps_from_json_file_raw nmj (jstream ds tail) = Some (json_docs nmj ds, Ok tt).
+Lemma maps_from_xml_file_raw_stream : forall (M : xmachine) ds tail,
+  docs_ok M ds -> eof_on_blanks M -> blank tail = true ->
+  new_maps_from_xml_file_raw M (stream ds tail) = Some (xml_docs M ds, Ok tt).
 Proof.
-  intros nmj ds tail Hd Ht Hne. unfold new_maps_from_json_file_raw, maps_from_file.
-  rewrite (maps_loop_stream _ _ _ _ (json_raw_stream_of nmj ds tail Hd Ht) Hne _ [] _ (file_schedule_clean _)); [reflexivity|].
-  unfold json_docs. rewrite map_length. pose proof (jstream_length ds tail). lia.
+  intros M ds tail Hd He Ht. unfold new_maps_from_xml_file_raw, maps_from_file.
+  rewrite (maps_loop_stream _ _ _ _ _ (xml_raw_stream_of M ds tail Hd He Ht) (xml_docs_non_nil M ds _ Hd) _ [] _
+             (file_schedule_ok _ _ (or_introl eq_refl))); [reflexivity|].
+  rewrite map_length. pose proof (stream_length_ok M ds tail Hd He). unfold str in *. lia.
+Qed.
+
+Lemma maps_from_json_file_raw_stream : forall e nmj ds tail,
+  jdocs_ok e nmj ds -> blank tail = true ->
+  new_maps_from_json_file_raw nmj (jstream e ds tail) = Some (json_docs e nmj ds, Ok tt).
+Proof.
+  intros e nmj ds tail Hd Ht. unfold new_maps_from_json_file_raw, maps_from_file.
+  rewrite (maps_loop_stream _ _ _ _ _ (json_raw_stream_of e nmj ds tail Hd Ht) (json_docs_non_nil e nmj ds _ Hd) _ [] _
+             (file_schedule_ok _ _ (or_intror eq_refl))); [reflexivity|].
+  rewrite map_length. pose proof (jstream_length e ds tail). unfold str in *. lia.
 Qed.
 
 (* ------------------------------------------------------------------ a small concrete decoder (for witnesses and non-vacuity) *)
@@ -229,13 +267,14 @@ Definition toy_step (st : tst) (c : ascii) : tst + res value :=
   | TIn acc => if (N_of_ascii c =? 62)%N then inr (Ok (VMap [(acc, VStr [])])) else inl (TIn (acc ++ [c]))
   end.
 Definition toy_eof (st : tst) : res value := match st with TOut => Err EEOF | TIn _ => Err EOther end.
-Definition toy : xmachine := {| m_st := tst; m_init := TOut; m_step := toy_step; m_eof := toy_eof |}.
+Definition toy : xmachine :=
+  {| m_st := tst; m_init := TOut; m_step := toy_step; m_eof := toy_eof; m_noprog := fun _ => Err EOther |}.
 
 Definition toy_doc (name : str) : str := lt_c :: name ++ [gt_c].
 Definition no_gt (name : str) : bool := forallb (fun c => negb (N_of_ascii c =? 62)%N) name.
 
 Lemma toy_eof_is_error : eof_is_error toy.
-Proof. intros [|acc]; reflexivity. Qed.
+Proof. intros [|acc]; split; reflexivity. Qed.
 
 Lemma toy_eof_on_blanks : eof_on_blanks toy.
 Proof.
@@ -280,107 +319,44 @@ Proof.
   intros [w n] [Hw Hn]. cbn in *. split; [exact Hw|]. split; [now apply toy_stops_at|]. now rewrite toy_decode.
 Qed.
 
-(* ------------------------------------------------------------------ refutation witnesses *)
+(* ------------------------------------------------------------------ witnesses *)
 
 Definition ch (x : string) : ascii := match s x with c :: _ => c | [] => zero_byte end.
 
-(* (n > 0, io.EOF): the last byte is lost *)
-Lemma adaptor_transparent_refuted_data_eof :
-  exists X sc n, legal X sc /\ map view_of (br_results n (my_byte_reader sc)) <> transparent X n.
+(* the only legal schedules the adaptors are not transparent for: 100 (0, nil) reads in a row *)
+Lemma adaptor_no_progress :
+  exists X sc n, legal X sc /\ br_results n sc <> transparent X n.
 Proof.
-  exists (s "ab"), [Data (ch "a"); DataEOF (ch "b")], 3. split; [split; reflexivity|].
+  exists (s "a"), (repeat Zero 100 ++ [Data (ch "a")]), 1. split; [split; reflexivity|].
   intro H. vm_compute in H. discriminate.
-Qed.
-(* (0, nil): the stale byte is delivered again *)
-Lemma adaptor_transparent_refuted_zero :
-  exists X sc n, legal X sc /\ map view_of (br_results n (my_byte_reader sc)) <> transparent X n.
-Proof.
-  exists (s "ab"), [Data (ch "a"); Zero; Data (ch "b")], 3. split; [split; reflexivity|].
-  intro H. vm_compute in H. discriminate.
-Qed.
-Lemma tee_transparent_refuted_data_eof :
-  exists X sc n, legal X sc /\ map view_of (fst (tr_results n (my_tee_reader sc))) <> transparent X n.
-Proof.
-  exists (s "ab"), [Data (ch "a"); DataEOF (ch "b")], 3. split; [split; reflexivity|].
-  intro H. vm_compute in H. discriminate.
-Qed.
-(* the tee buffer does not even record the byte that the decoder is given twice *)
-Lemma tee_transparent_refuted_zero :
-  exists X sc n, legal X sc /\
-    (map view_of (fst (tr_results n (my_tee_reader sc))) <> transparent X n /\
-     map view_of (fst (tr_results n (my_tee_reader sc))) <> map VByte (tr_w (snd (tr_results n (my_tee_reader sc))))).
-Proof.
-  exists (s "ab"), [Data (ch "a"); Zero; Data (ch "b")], 3. split; [split; reflexivity|].
-  split; intro H; vm_compute in H; discriminate.
 Qed.
 
 Definition ds_ab : list (str * str) := [([], toy_doc (s "a")); ([], toy_doc (s "b"))].
 Lemma ds_ab_ok : docs_ok toy ds_ab.
 Proof. apply (toy_docs_ok [([], s "a"); ([], s "b")]). repeat constructor. Qed.
 
-Lemma read_docs_refuted_data_eof :
+Lemma read_docs_no_progress :
   exists (M : xmachine) ds tail sc, docs_ok M ds /\ eof_on_blanks M /\ eof_is_error M /\ blank tail = true /\
     legal (stream ds tail) sc /\
     read_docs (noraw (new_map_xml_reader M)) (S (length sc)) sc <> expected M ds.
 Proof.
-  exists toy, ds_ab, [], (map Data (s "<a><b") ++ [DataEOF gt_c]).
+  exists toy, ds_ab, [], (map Data (s "<a>") ++ repeat Zero 100 ++ map Data (s "<b>")).
   split; [exact ds_ab_ok|]. split; [exact toy_eof_on_blanks|]. split; [exact toy_eof_is_error|].
   split; [reflexivity|]. split; [split; reflexivity|]. intro H. vm_compute in H. discriminate.
-Qed.
-Lemma read_docs_refuted_zero :
-  exists (M : xmachine) ds tail sc, docs_ok M ds /\ eof_on_blanks M /\ eof_is_error M /\ blank tail = true /\
-    legal (stream ds tail) sc /\
-    read_docs (noraw (new_map_xml_reader M)) (S (length sc)) sc <> expected M ds.
-Proof.
-  exists toy, ds_ab, [], (map Data (s "<a") ++ [Zero] ++ map Data (s "><b>")).
-  split; [exact ds_ab_ok|]. split; [exact toy_eof_on_blanks|]. split; [exact toy_eof_is_error|].
-  split; [reflexivity|]. split; [split; reflexivity|]. intro H. vm_compute in H. discriminate.
-Qed.
-
-(* {"a":"x\\"}: the value ends in a backslash; the scanner never sees the end of the literal *)
-Definition m_trail : entries := [(s "a", VStr (s "x" ++ [bsl]))].
-Lemma json_scan_split_refuted :
-  exists m sc, legal (marshal (VMap m)) sc /\ clean sc = true /\
-    forall sc', get_json sc <> Some (JOk (marshal (VMap m)), sc').
-Proof.
-  exists m_trail, (file_schedule (marshal (VMap m_trail))). split; [split; reflexivity|]. split; [reflexivity|].
-  intros sc' H. vm_compute in H. discriminate.
 Qed.
 
 (* blanks before / inside a document are consumed but missing from the raw value *)
 Definition nmj_a (_ : str) : res value := Ok (VMap [(s "a", VFlt (s "1"))]).
 Definition ds_blank : list (str * entries) := [(s " ", [(s "a", VFlt (s "1"))])].
 Lemma json_raw_prefix_refuted :
-  exists nmj ds tail sc, jdocs_ok nmj ds /\ blank tail = true /\ legal (jstream ds tail) sc /\ clean sc = true /\
-    prefixb (concat (map snd (read_docs (new_map_json_reader_raw nmj) (S (length sc)) sc))) (jstream ds tail) = false.
+  exists nmj ds tail sc, jdocs_ok true nmj ds /\ blank tail = true /\ legal (jstream true ds tail) sc /\
+    prefixb (concat (map snd (read_docs (new_map_json_reader_raw nmj) (S (length sc)) sc))) (jstream true ds tail) = false.
 Proof.
-  exists nmj_a, ds_blank, [], (file_schedule (jstream ds_blank [])).
-  split; [repeat constructor|]. split; [reflexivity|]. split; [split; reflexivity|]. split; reflexivity.
+  exists nmj_a, ds_blank, [], (file_schedule (jstream true ds_blank [])).
+  split; [repeat constructor|]. split; [reflexivity|]. split; [split; reflexivity|]. reflexivity.
 Qed.
 
-(* {} documents never reach mapHandler / the slice of a file reader *)
-Definition nmj_e (b : str) : res value :=
-  if str_eqb b (s "{}") then Ok (VMap []) else Ok (VMap [(s "a", VFlt (s "1"))]).
-Definition ds_empty : list (str * entries) := [([], [(s "a", VFlt (s "1"))]); ([], []); ([], [(s "a", VFlt (s "1"))])].
-Lemma handler_refuted_empty_object :
-  exists nmj ds tail sc mh eh, jdocs_ok nmj ds /\ blank tail = true /\ legal (jstream ds tail) sc /\ clean sc = true /\
-    forall rest, handle_json_reader nmj mh eh sc <>
-      Some {| h_calls := handler_calls mh 0 (json_docs_noraw nmj ds); h_errs := 0; h_ret := Ok tt; h_rest := rest |}.
-Proof.
-  exists nmj_e, ds_empty, [], (file_schedule (jstream ds_empty [])), (fun _ _ => true), (fun _ => true).
-  split; [repeat constructor|]. split; [reflexivity|]. split; [split; reflexivity|]. split; [reflexivity|].
-  intros rest H. vm_compute in H. discriminate.
-Qed.
-Lemma file_refuted_empty_object :
-  exists nmj ds tail, jdocs_ok nmj ds /\ blank tail = true /\
-    new_maps_from_json_file_raw nmj (jstream ds tail) <> Some (json_docs nmj ds, Ok tt).
-Proof.
-  exists nmj_e, ds_empty, []. split; [repeat constructor|]. split; [reflexivity|].
-  intro H. vm_compute in H. discriminate.
-Qed.
-
-(* a closing brace at depth 0: getJson returns a nil pointer, NewMapJsonReaderRaw dereferences it *)
-Lemma json_reader_raw_panics :
-  exists sc, legal (s "}") sc /\ clean sc = true /\
-    forall nmj, new_map_json_reader_raw nmj sc = Some (Panic, [], []).
-Proof. exists (file_schedule (s "}")). split; [split; reflexivity|]. split; reflexivity. Qed.
+(* a closing brace at depth 0 is reported as an error (repaired in /repo by 9f7e6ef; it used to be a nil dereference) *)
+Lemma json_reader_raw_lone_brace :
+  forall nmj, new_map_json_reader_raw nmj (file_schedule (s "}")) = Some (Err EOther, [], []).
+Proof. reflexivity. Qed.
